@@ -6,5 +6,6 @@ cd "$(dirname "$(readlink -f "$0")")/.."
 for i in $IDS; do
   t0=$(date +%s); out=$(bin/check $i --tier $T 2>&1); rc=$?; t1=$(date +%s)
   echo "rc=$rc $((t1-t0))s $(echo "$out" | grep -m1 "^$i $T:")"
+  if [ "$T" = thorough ] && [ -f evidence/$i.json ]; then mkdir -p evidence_thorough; cp evidence/$i.json evidence_thorough/$i.json; fi
   echo "$out" | grep "^VIOLATION\|^CHECK-BROKEN\|^KNOWN-FINDING" | cut -c1-200
 done
